@@ -168,10 +168,11 @@ CHECKS = {
              "C15_critical_is_min / C15_optimum_on_border / gq_border: the parameters xyz.DistanceLineToLine computes (cross products, since the repair of defect 15) "
              "are the critical point of the squared distance, that point is the global minimum, and when it lies outside the unit square every point of the square is "
              "beaten by a border point, i.e. by one of the four end-point-to-segment distances the code then takes the least of - so the code's rule is the minimum "
-             "(3-D, and 2-D non-parallel). Segment-to-segment (2D: 0 iff crossing else least endpoint distance; 3D: interior critical "
+             "(3-D, and 2-D non-parallel); C15_parallel_on_border: for parallel segments (u = k*v, the optimum a whole line of parameters) every point of the "
+             "unit square is matched or beaten by a border point, so the least end-point-to-segment distance both functions fall back to is the minimum. Segment-to-segment (2D: 0 iff crossing else least endpoint distance; 3D: interior critical "
              "point or least endpoint distance), zero-length segments, NaN-freedom and argument symmetry are checked on every explored input against exact "
              "rational arithmetic, with the Lean Float mirror reproducing Go bit for bit.",
-        note=NOTE_COMMON + "Partial: 2-D parallel segments (the optimum is a line of parameters) are oracle-checked, not proved; float rounding is bounded by tolerance 1e-9*scale, not proved.",
+        note=NOTE_COMMON + "Partial: float rounding is bounded by tolerance 1e-9*scale, not proved.",
     ),
     "C14": dict(
         technique="Lean 4 theorems over commutative rings (telescoping fan identities: area and first moments are independent of the base point and equal the shoelace sums) + bit-exact Float correspondence + exact rational centroid/area oracle",
